@@ -1,1 +1,143 @@
 // shared helpers for the codecmc harness binaries
+pub mod schema;
+pub mod wire;
+
+use std::alloc::{GlobalAlloc, Layout, System};
+use std::cell::Cell;
+
+use vcore::{Report, Value, Violation, json};
+
+////////////////////////////////////////// counting allocator //////////////////////////////////////
+
+/// A single allocation request above this size while decoding input of a few hundred bytes is
+/// reported as a violation (C15: decoding hostile input must not attempt a huge allocation).
+pub const ALLOC_LIMIT: usize = 64 << 20;
+
+thread_local! {
+    /// largest single allocation request made by this thread since the last `alloc_reset`
+    static PEAK_REQUEST: Cell<usize> = const { Cell::new(0) };
+}
+
+/// Forwards to the system allocator and remembers, per thread, the largest single request.  An
+/// impossible request makes the system allocator return null and the process abort; the sweep
+/// therefore runs in a child process and the supervisor turns the abort into a violation.
+pub struct CountingAlloc;
+
+fn note(size: usize) {
+    let _ = PEAK_REQUEST.try_with(|p| {
+        if size > p.get() {
+            p.set(size);
+        }
+    });
+}
+
+unsafe impl GlobalAlloc for CountingAlloc {
+    unsafe fn alloc(&self, layout: Layout) -> *mut u8 {
+        note(layout.size());
+        unsafe { System.alloc(layout) }
+    }
+    unsafe fn alloc_zeroed(&self, layout: Layout) -> *mut u8 {
+        note(layout.size());
+        unsafe { System.alloc_zeroed(layout) }
+    }
+    unsafe fn dealloc(&self, ptr: *mut u8, layout: Layout) {
+        unsafe { System.dealloc(ptr, layout) }
+    }
+    unsafe fn realloc(&self, ptr: *mut u8, layout: Layout, new_size: usize) -> *mut u8 {
+        note(new_size);
+        unsafe { System.realloc(ptr, layout, new_size) }
+    }
+}
+
+pub fn alloc_reset() {
+    PEAK_REQUEST.with(|p| p.set(0));
+}
+
+pub fn alloc_peak() -> usize {
+    PEAK_REQUEST.with(|p| p.get())
+}
+
+//////////////////////////////////////// report through a pipe /////////////////////////////////////
+
+/// Everything of a Report that must survive the child -> supervisor hop.
+pub fn dump_report(r: &Report) -> Value {
+    let set = |s: &std::collections::HashSet<u64>| -> Vec<u64> {
+        let mut v: Vec<u64> = s.iter().copied().collect();
+        v.sort();
+        v
+    };
+    json!({
+        "evaluations": r.evaluations,
+        "transitions": r.transitions,
+        "traces_validated": r.traces_validated,
+        "pruned_noops": r.pruned_noops,
+        "states": set(&r.states),
+        "nontrivial": set(&r.nontrivial),
+        "outcomes": set(&r.outcomes),
+        "exhaustive": r.exhaustive,
+        "cap_hit": r.cap_hit,
+        "samples": r.samples,
+        "violations": r.violations.iter().map(|v| json!({
+            "property": v.property, "signature": v.signature, "detail": v.detail, "case": v.case,
+        })).collect::<Vec<_>>(),
+        "violation_sigs": r.violation_sigs,
+        "counters": r.counters,
+        "notes": r.notes,
+    })
+}
+
+pub fn load_report(job: &str, property: &str, v: &Value) -> Report {
+    let mut r = Report::new(job, property);
+    r.evaluations = v["evaluations"].as_u64().unwrap();
+    r.transitions = v["transitions"].as_u64().unwrap();
+    r.traces_validated = v["traces_validated"].as_u64().unwrap();
+    r.pruned_noops = v["pruned_noops"].as_u64().unwrap();
+    for (name, set) in [
+        ("states", &mut r.states),
+        ("nontrivial", &mut r.nontrivial),
+        ("outcomes", &mut r.outcomes),
+    ] {
+        for x in v[name].as_array().unwrap() {
+            set.insert(x.as_u64().unwrap());
+        }
+    }
+    r.exhaustive = v["exhaustive"].as_bool().unwrap();
+    r.cap_hit = v["cap_hit"].as_str().map(|s| s.to_string());
+    r.samples = v["samples"].as_array().unwrap().clone();
+    for x in v["violations"].as_array().unwrap() {
+        r.violations.push(Violation {
+            property: x["property"].as_str().unwrap().to_string(),
+            signature: x["signature"].as_str().unwrap().to_string(),
+            detail: x["detail"].as_str().unwrap().to_string(),
+            case: x["case"].clone(),
+        });
+    }
+    for (k, n) in v["violation_sigs"].as_object().unwrap() {
+        r.violation_sigs.insert(k.clone(), n.as_u64().unwrap());
+    }
+    for (k, n) in v["counters"].as_object().unwrap() {
+        r.counters.insert(k.clone(), n.as_u64().unwrap());
+    }
+    for (k, n) in v["notes"].as_object().unwrap() {
+        r.notes.insert(k.clone(), n.clone());
+    }
+    r
+}
+
+/// Replace every run of decimal digits by `#` so that messages differing only in values collapse.
+pub fn strip_digits(s: &str) -> String {
+    let mut out = String::new();
+    let mut in_digits = false;
+    for c in s.chars() {
+        if c.is_ascii_digit() {
+            if !in_digits {
+                out.push('#');
+            }
+            in_digits = true;
+        } else {
+            in_digits = false;
+            out.push(if c == '\n' { ' ' } else { c });
+        }
+    }
+    out
+}
